@@ -186,7 +186,7 @@ def streamOf (sc : Script) (r : RunObs) : Except String (List Nat) := do
             | some t =>
               if t < o.time + lat + tx then throw s!"arrival-before-latency serial={serial}"
               let j := t - o.time - lat - tx
-              if j > jit then throw s!"jitter-out-of-range serial={serial} jitter={j} bound={jit}"
+              if j ≥ jit then throw s!"jitter-out-of-range serial={serial} jitter={j} bound={jit}"
               out := out.push j
             | none =>
               -- `at_sim_end` does not flush the emission buffer: the draw is made, its value is never used
